@@ -1,7 +1,10 @@
 from .. import smt_units
 
 PROP = {
-    "kani_groups": ["hk_otlp"],
+    "kani_groups": ["hk_otlp", "hk_batcher"],
+    # "a request that fails is sent again with the same events once the back-off elapses": the re-delivery itself is the batching
+    # channel's receiver step (harness named after C06-C08), claimed here as well
+    "also": [r"^c06c07c08_q_r_exec_iter$"],
     "smt": [smt_units.unit_otlp_http_connection],
     "level_text": "PARTIAL claim: decides the request accounting of the OTLP client (the request loop of "
                   "OtlpTransport::send against scripted per-request outcomes, and the grouping/len/clear accounting of "
@@ -10,6 +13,9 @@ PROP = {
                  "waker; the network request inside it is a call-site substitution answering from a script) and of "
                  "impl emit_batcher::Channel for client::Channel",
     "functions": [
+        "emit_batcher::Receiver::exec, one loop iteration from an arbitrary state incl. an arbitrary retry/back-off history (group hk_batcher, "
+        "c06c07c08_q_r_exec_iter, see C06-C08 for its bounds and stand-ins): a batch whose processor returned BatchError::retry(remainder) is "
+        "re-delivered as exactly that remainder after one wait of the next back-off, at most budget + 1 times, with a fresh budget per batch",
         "emit_otlp::client::OtlpTransport::<LogsRequestEncoder>::send (request loop; Self::send_batch substituted)",
         "emit_batcher::BatchError::{retry, map_retryable, into_retryable}",
         "<emit_otlp::client::Channel as emit_batcher::Channel>::{new, push, len, clear}",
